@@ -19,6 +19,12 @@ struct Ctx {
   int kind = 0;
 };
 
+// the buffer a linked string lives in: one per distinct text (like string literals), kept alive for the whole history
+static const char* linkedBuf(Ctx& c, const std::string& s) {
+  for (const std::string& e : c.pool) if (e == s) return e.c_str();
+  c.pool.push_back(s);
+  return c.pool.back().c_str();
+}
 // kind 7 = mixed: every operation takes its string operands through a kind chosen from the operation counter
 static int effKind(const Ctx& c) { return c.kind == 7 ? int(c.curAlias % 7) : c.kind; }
 // store string s (value) into variant v using the configured source kind; returns set()'s result
@@ -28,10 +34,10 @@ template <class V> static bool setString(Ctx& c, V v, const std::string& s) {
     // mixed mode: first store the SAME text through the opposite storage (linked <-> copied), then through the kind
     // under test: the second call must fully replace the first one's storage
     if (effKind(c) == 1) { std::string tmp = s; v.set(tmp); }
-    else { c.pool.push_back(s); v.set(c.pool.back().c_str()); }
+    else { v.set(linkedBuf(c, s)); }
   }
   switch (hasNul ? 0 : effKind(c)) {
-    case 1: c.pool.push_back(s); return v.set(c.pool.back().c_str());                  // const char*: linked
+    case 1: return v.set(linkedBuf(c, s));                  // const char*: linked
     case 2: { std::vector<char> buf(s.begin(), s.end()); buf.push_back(0); bool r = v.set(buf.data());   // char*: copied
               std::fill(buf.begin(), buf.end(), 'Z'); return r; }
     case 3: { std::string tmp = s; bool r = v.set(JsonString(tmp.c_str(), tmp.size(), JsonString::Copied)); tmp.assign(tmp.size(), 'Z'); return r; }
@@ -52,7 +58,7 @@ static const char* aliasPrefix(Ctx& c, const std::string& k) {
 template <class F> static auto withKey(Ctx& c, const std::string& k, F f) {
   bool hasNul = k.find('\0') != std::string::npos;
   switch (hasNul ? 0 : effKind(c)) {
-    case 1: c.pool.push_back(k); return f(c.pool.back().c_str());
+    case 1: return f(linkedBuf(c, k));
     case 2: { c.pool2.emplace_back(k.begin(), k.end()); c.pool2.back().push_back(0); std::vector<char> tmp = c.pool2.back();
               auto r = f((char*)tmp.data()); return r; }
     case 3: { if (const char* a = aliasPrefix(c, k)) return f(JsonString(a, k.size(), JsonString::Copied));
